@@ -9,4 +9,4 @@ Extraction "../ocaml/gen/ModelC05.ml"
   ccm_encrypt ccm_decrypt
   cbch_encrypt cbch_decrypt ctrh_encrypt ctrh_decrypt
   sm3_hmac_init sm3_hmac_update sm3_hmac_finish
-  cbc_hmac_spec_decrypt ctr_hmac_spec_decrypt.
+  cbc_hmac_spec_decrypt ctr_hmac_spec_decrypt cbc_enc_blocks sm3_hmac_spec.
